@@ -516,6 +516,7 @@ pub const SOUP: &[&str] = &[
     "#\\a", "#\\x", "#\\x41", "#\\space", "#\\sp", "#\\newline", "#\\λ", "#\\(", "#\\", "#\\x110000", "#\\xD800",
     "\"\"", "\"a\"", "\"a b\"", "\"\\n\"", "\"\\x41;\"", "\"\\x41\"", "\"\\q\"", "\"\\", "\"abc", "\"λ\"", "\"\\u00e9\"",
     "\"\\101\"", "\"\\xff\"", "\"\\N{U+3bb}\"", "\"\\^a\"", "\"a\\ b\"", "\"\\U0001F600\"", "\"\\xD800;\"", "\"\\x110000;\"",
+    ".a:", "...:", ".b", "(a .b: c)", "12#t", "1#", ".#t", "-#t", "a .", "(a . b )", "(a . b ; c\n)", "\"\u{e9}\\101\"", "\"\\101\u{e9}\"", "\"\u{3bb}\\x41\"", "\"\\x41\\ \u{3bb}\"", "\"\\xe9;\"", "\"a\\x80;b\"", "0.0000001", "+1e-7", "#d5e-9",
     ";c\n", ";", "; (\n", "#|", "|", "||", "|a b|", "{", "}", "\\", "\\a", "@", ",@a", "^", "~", "_", "%",
 ];
 
